@@ -7,6 +7,21 @@ use super::*;
 pub struct Inst {
     /// page-table indices (p4, p3, p2, p1) of the operation's page
     pub ix: [usize; 4],
+    /// what the path holds before the call (concrete skeleton, see `build`):
+    /// 0: p4 slot empty            1: p4 -> P3, p3 slot empty      2: p3 slot = 1GiB leaf
+    /// 3: .. -> P2, p2 slot empty  4: p2 slot = 2MiB leaf          5: .. -> P1, p1 slot empty
+    /// 6: p1 slot = 4KiB leaf
+    pub shape: u8,
+    /// flags of the existing parent entries (concrete per instance; PRESENT is added)
+    pub parent: u64,
+    /// the `parent_table_flags` argument of map_to (concrete per instance; PRESENT is added)
+    pub pflags: u64,
+    /// allocator failure position (concrete per instance): 0 = never, n = the n-th request fails
+    pub fail: u8,
+    /// huge-page operations only: use concrete frame / flags arguments and a concrete target leaf, so that
+    /// the crate's own `translate*` can be run on the page afterwards (an entry of level 2 or 3 with symbolic
+    /// bits makes the crate's "is it a huge page?" branch symbolic and its table pointer data-dependent)
+    pub conc: bool,
 }
 pub fn compose(i4: usize, i3: usize, i2: usize, i1: usize) -> u64 {
     sign_extend48(((i4 as u64) << 39) + ((i3 as u64) << 30) + ((i2 as u64) << 21) + ((i1 as u64) << 12))
@@ -28,28 +43,39 @@ pub struct Scen {
     pub nwit: usize,
 }
 
-pub fn build(inst: Inst) -> Scen {
+/// `op_leaf`: the level whose entry the operation targets (1 = 4KiB, 2 = 2MiB, 3 = 1GiB), 0 for read-only
+/// operations.  A huge leaf that sits ABOVE the operation's target level is a parent the operation must
+/// refuse; it is given concrete contents (read-only, supervisor) because the crate's "not huge" branch
+/// would otherwise dereference a pointer derived from symbolic data and write through it.
+pub fn build(inst: Inst, op_leaf: u32) -> Scen {
     #[cfg(test)]
     reset_pool(); // native replay runs several tests in one process
     let [i4, i3, i2, i1] = inst.ix;
     let (j4, j3, j2, n1) = (i4 ^ 1, i3 ^ 1, i2 ^ 1, i1 ^ 1);
-    // ---- symbolic contents of the path and of its neighbours
-    let c4: u8 = kani::any();
-    let c3: u8 = kani::any();
-    let c2: u8 = kani::any();
-    let c1: u8 = kani::any();
-    kani::assume(c4 <= LINK && c3 <= HUGE && c2 <= HUGE && (c1 == ZERO || c1 == LEAF));
-    set_raw(0, i4, if c4 == LINK { any_link(1) } else { 0 });
-    set_raw(1, i3, match c3 { LINK => any_link(2), HUGE => any_huge(1 << 30), _ => 0 });
-    set_raw(2, i2, match c2 { LINK => any_link(3), HUGE => any_huge(1 << 21), _ => 0 });
+    // ---- the path: CONCRETE skeleton (which slots are links / where the path ends) with concrete
+    // parent flags, so that every table pointer the mapper dereferences is a constant during symbolic
+    // execution (a symbolic table pointer turns each access into a multiplexer over N x 512 slots and
+    // did not finish, DESIGN.md 3.5).  Symbolic: the contents of the leaf that ends the path, every
+    // neighbouring entry, the stale bytes in free frames, the call's frame / flags / failure position.
+    let par = (inst.parent | P) & !PS;
+    let sh = inst.shape;
+    let c4 = if sh >= 1 { LINK } else { ZERO };
+    let c3 = if sh == 2 { HUGE } else if sh >= 3 { LINK } else { ZERO };
+    let c2 = if sh == 4 { HUGE } else if sh >= 5 { LINK } else { ZERO };
+    let c1 = if sh == 6 { LEAF } else { ZERO };
+    set_raw(0, i4, if c4 == LINK { table_phys(1) | par } else { 0 });
+    let h3 = if op_leaf == 3 && !inst.conc { any_huge(1 << 30) } else { 0x0000_0008_4000_0000 | P | PS | (inst.parent & !W) };
+    let h2 = if op_leaf == 2 && !inst.conc { any_huge(1 << 21) } else { 0x0000_0008_4020_0000 | P | PS | (inst.parent & !W) };
+    set_raw(1, i3, match c3 { LINK => table_phys(2) | par, HUGE => h3, _ => 0 });
+    set_raw(2, i2, match c2 { LINK => table_phys(3) | par, HUGE => h2, _ => 0 });
     set_raw(3, i1, if c1 == LEAF { any_leaf() } else { 0 });
-    // neighbours
+    // neighbours (symbolic leaves; the 2MiB neighbour slot links the second level-1 table or is a huge leaf)
     set_raw(3, n1, if kani::any() { any_leaf() } else { 0 });
-    let cj2: u8 = kani::any();
-    kani::assume(cj2 <= HUGE);
-    set_raw(2, j2, match cj2 { LINK => any_link(4), HUGE => any_huge(1 << 21), _ => 0 });
+    // entries of level 2 and 3 are concrete (see `Inst::conc`); level-1 leaves are symbolic
+    let cj2: u8 = if inst.ix[0] % 2 == 1 { LINK } else { HUGE };
+    set_raw(2, j2, match cj2 { LINK => table_phys(4) | par, _ => 0x0000_0008_4040_0000 | P | PS | W });
     set_raw(4, i1, if kani::any() { any_leaf() } else { 0 });
-    set_raw(1, j3, if kani::any() { any_huge(1 << 30) } else { 0 });
+    set_raw(1, j3, if inst.ix[1] % 2 == 0 { 0x0000_0009_0000_0000 | P | PS | U } else { 0 });
     set_raw(0, j4, 0);
     // ---- which tables are part of the hierarchy (the others may be handed out by the allocator)
     let l1 = c4 == LINK;
@@ -68,10 +94,10 @@ pub fn build(inst: Inst) -> Scen {
     if !l1 { garbage(1, &[0, 511]); }
     if !l2 { garbage(2, &[0, 511]); }
     if !l3 { garbage(3, &[0, 511]); }
-    let off: u64 = kani::any();
-    kani::assume(off < 4096);
+    // Probe addresses are CONCRETE including their page offsets: a symbolic offset makes every table index
+    // the crate derives from the address a symbolic 9-bit value, i.e. every table read a 512-way multiplexer.
     let a = compose(i4, i3, i2, i1);
-    let probes = [a + off, compose(i4, i3, i2, n1) + off, compose(i4, i3, j2, i1) + off, compose(i4, j3, i2, i1) + off, compose(j4, i3, i2, i1) + off];
+    let probes = [a + 0xabc, compose(i4, i3, i2, n1) + 0x001, compose(i4, i3, j2, i1) + 0xfff, compose(i4, j3, i2, i1), compose(j4, i3, i2, i1) + 8];
     // witnesses: every slot written above, slots 0/511 of every table
     let mut wit = [Slot { k: 0, i: 0 }; 24];
     let list = [
@@ -161,13 +187,15 @@ pub fn check_translate_agrees(m: &MappedPageTable<'static, PoolMap>, a: u64) {
     }
     let ta = m.translate_addr(va(a));
     vp!(C01, ta.map(|p| p.as_u64()) == if w.kind == 0 { None } else { Some(w.phys) }, "translate_addr disagrees with the hardware walk");
-    // translate_page of the size the address is mapped with returns the frame; of 4KiB when unmapped: error
-    match w.kind {
-        1 => vp!(C01, m.translate_page(Page::<Size4KiB>::containing_address(va(a))).map(|f| f.start_address().as_u64()).ok() == Some(w.phys & !0xfff), "translate_page<4KiB> disagrees with the hardware walk"),
-        2 => vp!(C01, m.translate_page(Page::<Size2MiB>::containing_address(va(a))).map(|f| f.start_address().as_u64()).ok() == Some(w.phys & !0x1f_ffff), "translate_page<2MiB> disagrees with the hardware walk"),
-        3 => vp!(C01, m.translate_page(Page::<Size1GiB>::containing_address(va(a))).map(|f| f.start_address().as_u64()).ok() == Some(w.phys & !0x3fff_ffff), "translate_page<1GiB> disagrees with the hardware walk"),
-        _ => vp!(C01, m.translate_page(Page::<Size4KiB>::containing_address(va(a))).is_err(), "translate_page<4KiB> succeeds for an unmapped address"),
-    }
+    // translate_page::<S> succeeds exactly for the size the address is mapped with, and returns the frame
+    let t4 = m.translate_page(Page::<Size4KiB>::containing_address(va(a))).map(|f| f.start_address().as_u64()).ok();
+    let t2 = m.translate_page(Page::<Size2MiB>::containing_address(va(a))).map(|f| f.start_address().as_u64()).ok();
+    let t1 = m.translate_page(Page::<Size1GiB>::containing_address(va(a))).map(|f| f.start_address().as_u64()).ok();
+    vp!(C01, t4 == if w.kind == 1 { Some(w.phys & !0xfff) } else { None }, "translate_page<4KiB> disagrees with the hardware walk");
+    vp!(C02, w.kind == 2 || t2.is_none(), "translate_page<2MiB> reports success although no 2MiB mapping exists for the page");
+    vp!(C01, w.kind != 2 || t2 == Some(w.phys & !0x1f_ffff), "translate_page<2MiB> disagrees with the hardware walk");
+    vp!(C02, w.kind == 3 || t1.is_none(), "translate_page<1GiB> reports success although no 1GiB mapping exists for the page");
+    vp!(C01, w.kind != 3 || t1 == Some(w.phys & !0x3fff_ffff), "translate_page<1GiB> disagrees with the hardware walk");
 }
 
 fn on_path(s: &Slot, pre: &PrePath, a: u64, leaf_level: u32) -> Option<u32> {
@@ -205,15 +233,15 @@ macro_rules! size_ops {
 
             /// One `map_to_with_table_flags` from an arbitrary hierarchy state.
             pub fn map(inst: Inst) {
-                let sc = build(inst);
+                let sc = build(inst, LEAF);
                 let (page, a) = page_of(&inst);
-                let fa = any_phys();
-                kani::assume(fa % SIZE == 0 && (fa + SIZE <= BASE || fa >= BASE + 4096 * N as u64));
+                let fa = if inst.conc { 0x0000_000a_8000_0000 } else { any_phys() };
+                kani::assume(fa % SIZE == 0 && fa + SIZE <= BASE);
                 let frame = PhysFrame::<$S>::containing_address(PhysAddr::new(fa));
-                let flags = any_flags() | P;
-                let pflags = (any_flags() | P) & !PS;
-                let fail_at: u8 = kani::any();
-                kani::assume(fail_at <= 4);
+                let flags = if inst.conc { P | W | (1 << 63) | (1 << 10) } else { any_flags() | P };
+                let tr_inpage = LEAF == 1 || inst.conc;
+                let pflags = (inst.pflags | P) & !PS;
+                let fail_at: u8 = inst.fail;
                 let mut alloc = Alloc::new(sc.free, fail_at);
                 // ---- before
                 let pre = pre_path(a);
@@ -251,6 +279,7 @@ macro_rules! size_ops {
                 // ---- the call
                 let mut m = mapper();
                 let r = unsafe { m.map_to_with_table_flags(page, frame, PageTableFlags::from_bits_retain(flags), PageTableFlags::from_bits_retain(pflags), &mut alloc) };
+                kani::cover!(true); // the call returns (reachability witness; later obligations may cut the path)
                 // ---- outcome
                 let ok = match r {
                     Ok(flush) => {
@@ -299,7 +328,9 @@ macro_rules! size_ops {
                         vp!(C02, same_mapping(&before[j], &after), "a call changed the mapping (frame, size or leaf flags) of another address / a failed call changed a mapping");
                         vp!(C02, (after.eff_w || !before[j].eff_w) && (after.eff_u || !before[j].eff_u), "a call removed effective rights of another address");
                     }
-                    check_translate_agrees(&m, p);
+                    if tr_inpage || !in_page(a, p) {
+                        check_translate_agrees(&m, p);
+                    }
                     j += 1;
                 }
                 // ---- frame rule on the witness slots
@@ -341,16 +372,12 @@ macro_rules! size_ops {
                     }
                     j += 1;
                 }
-                kani::cover!(ok && need == (4 - LEAF) as u8);
-                kani::cover!(ok && need == 0);
-                kani::cover!(!ok && huge_parent);
-                kani::cover!(!ok && alloc_fails && fail_at > 1 || LEAF == 3);
-                kani::cover!(!ok && leaf_before != 0);
+
             }
 
             /// One `unmap` from an arbitrary hierarchy state.
             pub fn unmap(inst: Inst) {
-                let sc = build(inst);
+                let sc = build(inst, LEAF);
                 let (page, a) = page_of(&inst);
                 let pre = pre_path(a);
                 let mut before = [NOT_MAPPED; 5];
@@ -369,6 +396,7 @@ macro_rules! size_ops {
                 let here = hw_walk(a);
                 let mut m = mapper();
                 let r = Mapper::<$S>::unmap(&mut m, page);
+                kani::cover!(true);
                 let ok = match r {
                     Ok((f, flush)) => {
                         vp!(C02, here.kind == $KIND, "unmap succeeded although no mapping of this size exists for the page");
@@ -404,7 +432,9 @@ macro_rules! size_ops {
                     } else {
                         vp!(C02, same_mapping(&before[j], &after) && after.eff_w == before[j].eff_w && after.eff_u == before[j].eff_u, "unmap changed the mapping of another address / a failed unmap changed a mapping");
                     }
-                    check_translate_agrees(&m, p);
+                    if LEAF == 1 || inst.conc || !in_page(a, p) {
+                        check_translate_agrees(&m, p);
+                    }
                     j += 1;
                 }
                 j = 0;
@@ -416,17 +446,14 @@ macro_rules! size_ops {
                     }
                     j += 1;
                 }
-                kani::cover!(ok);
-                kani::cover!(!ok && here.kind == 0);
-                kani::cover!(!ok && here.kind != 0);
             }
 
             /// One `update_flags` from an arbitrary hierarchy state.
             pub fn update_flags(inst: Inst) {
-                let sc = build(inst);
+                let sc = build(inst, LEAF);
                 let (page, a) = page_of(&inst);
                 let pre = pre_path(a);
-                let flags = any_flags() | P;
+                let flags = if inst.conc { P | U | (1 << 9) } else { any_flags() | P };
                 let mut before = [NOT_MAPPED; 5];
                 let mut wbefore = [0u64; 24];
                 let mut j = 0;
@@ -443,6 +470,7 @@ macro_rules! size_ops {
                 let here = hw_walk(a);
                 let mut m = mapper();
                 let r = unsafe { Mapper::<$S>::update_flags(&mut m, page, PageTableFlags::from_bits_retain(flags)) };
+                kani::cover!(true);
                 let ok = match r {
                     Ok(flush) => {
                         vp!(C02, here.kind == $KIND, "update_flags reported success although no mapping of this size exists for the page");
@@ -473,7 +501,9 @@ macro_rules! size_ops {
                     } else {
                         vp!(C02, same_mapping(&before[j], &after) && after.eff_w == before[j].eff_w && after.eff_u == before[j].eff_u, "update_flags changed the mapping of another address / a failed update changed a mapping");
                     }
-                    check_translate_agrees(&m, p);
+                    if LEAF == 1 || inst.conc || !in_page(a, p) {
+                        check_translate_agrees(&m, p);
+                    }
                     j += 1;
                 }
                 j = 0;
@@ -485,9 +515,6 @@ macro_rules! size_ops {
                     }
                     j += 1;
                 }
-                kani::cover!(ok);
-                kani::cover!(!ok && here.kind == 0);
-                kani::cover!(!ok && here.kind > $KIND || LEAF == 3);
             }
         }
     };
@@ -498,7 +525,8 @@ size_ops!(s1g, Size1GiB, 3, 3);
 
 /// translate family on an arbitrary hierarchy (no modification).
 pub fn translate_only(inst: Inst) {
-    let sc = build(inst);
+    let sc = build(inst, 0);
+    kani::cover!(true);
     let m = mapper();
     let mut j = 0;
     while j < 5 {
@@ -506,8 +534,4 @@ pub fn translate_only(inst: Inst) {
         j += 1;
     }
     vp!(C09, unsafe { !STRAY_ACCESS }, "translate dereferenced a frame that is not a page table of the hierarchy");
-    kani::cover!(hw_walk(sc.probes[0]).kind == 1);
-    kani::cover!(hw_walk(sc.probes[0]).kind == 2);
-    kani::cover!(hw_walk(sc.probes[0]).kind == 3);
-    kani::cover!(hw_walk(sc.probes[0]).kind == 0);
 }
